@@ -22,6 +22,9 @@ type Config struct {
 	ExtraModels string `json:"extra_models,omitempty"`
 	// SchemaGlob: the schema entry ("*.graphqls" when empty)
 	SchemaGlob string `json:"schema_glob,omitempty"`
+	// SplitModel: models are generated into a package of their own (model/models_gen.go, package
+	// model - the layout of gqlgen's own init template) instead of the exec package
+	SplitModel bool `json:"split_model,omitempty"`
 }
 
 var BoolOptions = []string{
@@ -70,7 +73,11 @@ func (c Config) YAML() string {
 	if c.WorkerLimit > 0 {
 		fmt.Fprintf(&sb, "  worker_limit: %d\n", c.WorkerLimit)
 	}
-	fmt.Fprintf(&sb, "model:\n  filename: models_gen.go\n  package: %s\n", c.Package)
+	if c.SplitModel {
+		sb.WriteString("model:\n  filename: model/models_gen.go\n  package: model\n")
+	} else {
+		fmt.Fprintf(&sb, "model:\n  filename: models_gen.go\n  package: %s\n", c.Package)
+	}
 	switch c.ResolverLayout {
 	case "single-file":
 		fmt.Fprintf(&sb, "resolver:\n  filename: resolver.go\n  package: %s\n  type: Resolver\n", c.Package)
